@@ -28,7 +28,8 @@ FAbsent == [p |-> FALSE, v |-> FZero]
 FStored(f) == [p |-> TRUE, v |-> f]
 
 OffCells == {Stored(v) : v \in OffVals} \cup (IF AllowAbsent THEN {Absent} ELSE {})
-DiagCells == {Stored(v) : v \in DiagVals}
+\* the diagonal may be structurally absent, too: the pivot can arise from fill-in alone (e.g. [2 1; 3 .])
+DiagCells == {Stored(v) : v \in DiagVals} \cup (IF AllowAbsent THEN {Absent} ELSE {})
 
 Rhs(k, m) == [i \in 1..m |-> IF k = 1 THEN FInt(i) ELSE FInt(IF i % 2 = 0 THEN -1 ELSE 2)]
 
